@@ -203,3 +203,55 @@ func VerifFileFID(f File) (uint64, bool) {
 	}
 	return uint64(cf.fid), true
 }
+
+// VerifBufferPrims lists the codec primitives: the exported methods of *buffer.
+func VerifBufferPrims() []string {
+	t := reflect.TypeOf(&buffer{})
+	var out []string
+	for i := 0; i < t.NumMethod(); i++ {
+		out = append(out, t.Method(i).Name)
+	}
+	return out
+}
+
+// VerifBufferCall calls the primitive name on a buffer holding data. A write primitive gets v
+// (converted to its parameter type) or s; a read primitive's result comes back as rv or rs. out is
+// what the buffer holds afterwards, overrun its sticky flag; ok is false if there is no such
+// primitive or its signature is not (uint or string) -> () / () -> (uint or string).
+func VerifBufferCall(name string, data []byte, v uint64, s string) (out []byte, rv uint64, rs string, overrun bool, ok bool) {
+	b := &buffer{data: append([]byte(nil), data...)}
+	m := reflect.ValueOf(b).MethodByName(name)
+	if !m.IsValid() {
+		return nil, 0, "", false, false
+	}
+	t := m.Type()
+	var in []reflect.Value
+	switch {
+	case t.NumIn() == 0 && t.NumOut() == 1:
+	case t.NumIn() == 1 && t.NumOut() == 0:
+		a := reflect.New(t.In(0)).Elem()
+		switch a.Kind() {
+		case reflect.String:
+			a.SetString(s)
+		case reflect.Uint8, reflect.Uint16, reflect.Uint32, reflect.Uint64:
+			a.SetUint(v)
+		default:
+			return nil, 0, "", false, false
+		}
+		in = append(in, a)
+	default:
+		return nil, 0, "", false, false
+	}
+	res := m.Call(in)
+	if len(res) == 1 {
+		switch res[0].Kind() {
+		case reflect.String:
+			rs = res[0].String()
+		case reflect.Uint8, reflect.Uint16, reflect.Uint32, reflect.Uint64:
+			rv = res[0].Uint()
+		default:
+			return nil, 0, "", false, false
+		}
+	}
+	return b.data, rv, rs, b.isOverrun(), true
+}
